@@ -24,7 +24,7 @@ def state_shapes(env):
     return st, ts
 
 
-def step_harness(R, env, ranges=None, unroll=16, tag="S", ctx=None, state=None, havoc_loops=False):
+def step_harness(R, env, ranges=None, unroll=16, tag="S", ctx=None, state=None, havoc_loops=False, validate=2):
     """arbitrary pre-state (dtype ranges only unless `ranges`), arbitrary in-spec action, one symbolic step."""
     ctx = ctx or Ctx(max_unroll=unroll, havoc_loops=havoc_loops)
     st_shape, _ = state_shapes(env)
@@ -33,7 +33,25 @@ def step_harness(R, env, ranges=None, unroll=16, tag="S", ctx=None, state=None, 
     t0 = time.time()
     ns, ts = S.call(ctx, env.step, st, act, R=R, name=type(env).__name__ + ".step")
     R.nvars += S.nvars(st) + S.nvars(act)
+    if validate and state is None:
+        validate_step(R, env, st, act, ns, ts, validate)
     return ctx, st, act, pre, ns, ts
+
+
+def validate_step(R, env, st, act, ns, ts, n=2):
+    """end-to-end differential (DESIGN 1.6): real jitted step vs. the encoding under concrete inputs taken
+    from a real rollout (reset state, then successive states under spec-random actions)."""
+    spec = env.action_spec
+    rng = np.random.default_rng(R.seed)
+    s0, _ = jax.jit(env.reset)(jax.random.PRNGKey(R.seed))
+    f = jax.jit(env.step)
+    lo = np.broadcast_to(np.asarray(getattr(spec, "minimum", 0)), spec.shape)
+    hi = np.broadcast_to(np.asarray(getattr(spec, "maximum", 0)), spec.shape)
+    for _ in range(n):
+        a0 = jnp.asarray(rng.integers(lo, hi + 1).astype(spec.dtype))
+        out = f(s0, a0)
+        S.differential(R, type(env).__name__ + ".step", (st, act), (ns, ts), out, (s0, a0))
+        s0 = out[0]
 
 
 def reset_harness(R, env, unroll=16, ctx=None, havoc_loops=False):
